@@ -8,7 +8,9 @@ grids={'C03':{'quick':{'len':['0','2']},'thorough':{'len':['0','1','3']}},
        'C05':{'quick':{'len':['1']},'thorough':{'len':['0','3']}}}
 # per-structure overrides: NegotiateResponse carries two NUL-terminated UTF-16 names, whose interesting inputs need >= 2 code units
 override={('C04','NegotiateResponse'):{'quick':{'len':['0','2','4']},'thorough':{'len':['0','1','2','3','4','6']}},
-          ('C05','NegotiateResponse'):{'quick':{'len':['1','4']},'thorough':{'len':['0','3','6']}}}
+          ('C05','NegotiateResponse'):{'quick':{'len':['1','4']},'thorough':{'len':['0','3','6']}},
+          # TransactionRequest carries a word array counted by a UCHAR: sizes on both sides of 128
+          ('C04','TransactionRequest'):{'quick':{'len':['0','2','128']},'thorough':{'len':['0','1','2','3','4','127','128','129','200']}}}
 for p in ('C03','C04','C05'):
     fn='/verif/props/%s.json'%p
     d=json.load(open(fn))
